@@ -49,6 +49,10 @@ theorem generatePrimes_primesIn (l1raw a b kib : ℕ) (hb : b < 2 ^ 64) (hk : 16
   · rintro ⟨h1, h2, h3⟩; exact ⟨h3, h2, by omega⟩
   · rintro ⟨h1, h2, h3⟩; exact ⟨by omega, h2, h1⟩
 
+/-- the float assumption of WP core2 (`maxEratMedium_ < 2^25`, PcProofs/PsCore2RunD.lean) for every window `[a, b]`, `b < 2^64`, the
+    real core can be asked for (`PrimeGenerator` sieves `[max(a, 721), b]`); a theorem for `b < 2^50` (`floatOk_window_below_2_50`) -/
+def CoreFloatOk (l1raw kib : ℕ) : Prop := ∀ a b, b < 2 ^ 64 → FloatOk l1raw (max 721 a) b kib
+
 /-- `GenSpec` for the real core below `B ≤ 2^64`, from the float assumption for the windows below `B` -/
 theorem coreEnvTo_genSpec (fl : Floats) (batch : ℕ → ℕ) (l1raw kib B : ℕ) (hB : B ≤ 2 ^ 64)
     (hfl : ∀ a b, b < B → FloatOk l1raw (max 721 a) b kib) (hk : 16 ≤ kib) (hk2 : kib ≤ 8192) :
@@ -64,7 +68,7 @@ theorem coreEnvTo_genSpec (fl : Floats) (batch : ℕ → ℕ) (l1raw kib B : ℕ
 /-- **`GenSpec` discharged**: the iterator environment over the real sieving core meets the contract every theorem of
     PcProps/C18.lean assumes; the only hypothesis left is the float assumption of WP core2 (`maxEratMedium_ < 2^25`) -/
 theorem coreEnv_genSpec (fl : Floats) (batch : ℕ → ℕ) (l1raw kib : ℕ)
-    (hfl : ∀ a b, b < 2 ^ 64 → FloatOk l1raw (max 721 a) b kib) (hk : 16 ≤ kib) (hk2 : kib ≤ 8192) :
+    (hfl : CoreFloatOk l1raw kib) (hk : 16 ≤ kib) (hk2 : kib ≤ 8192) :
     GenSpec (coreEnv fl batch l1raw kib) :=
   coreEnvTo_genSpec fl batch l1raw kib (2 ^ 64) (le_refl _) hfl hk hk2
 
